@@ -44,6 +44,25 @@ def make (h : Heap) (k : Kind) (n c : Int) : Option (Heap × Buf) :=
       { ch := 0, blk := h.length, off := 0, len := n.toNat, cap := c.toNat, kind := k, depth := 0 })
   else none
 
+/-- `s[i]` on a caller's slice held as a list: `none` is Go's index panic -/
+def listGet (l : List Int) (i : Int) : Option Int := if 0 ≤ i then l[i.toNat]? else none
+/-- `s[i] = v` on a caller's slice held as a list: `none` is Go's index panic -/
+def listSet (l : List Int) (i v : Int) : Option (List Int) :=
+  if 0 ≤ i ∧ i.toNat < l.length then some (l.set i.toNat v) else none
+/-- a non-constant integer divisor: `none` is Go's division-by-zero panic -/
+def nonZero (x : Int) : Option Int := if x = 0 then none else some x
+
+/-- the iterations `is` of a `for` loop whose body threads the heap, the written buffer's header and the written
+caller's slice (the translator admits only bodies that assign no variable declared outside the loop) -/
+def forList (body : Int → Heap → Buf → List Int → Res (Buf × List Int)) :
+    List Nat → Heap → Buf → List Int → Res (Buf × List Int)
+  | [], h, b, l => .ok h (b, l)
+  | i :: is, h, b, l => (body (i : Int) h b l).bind fun h' r => forList body is h' r.1 r.2
+/-- `for i := 0; i < n; i++ { body }` (no iteration when `n ≤ 0`) -/
+def forRange (n : Int) (h : Heap) (b : Buf) (l : List Int)
+    (body : Int → Heap → Buf → List Int → Res (Buf × List Int)) : Res (Buf × List Int) :=
+  forList body (List.range n.toNat) h b l
+
 end Sig.Gen
 
 namespace Sig
